@@ -146,6 +146,7 @@ def do(c):
 def main():
     _register_defs()
     out = sys.stdout
+    sys.stdout = sys.stderr          # whatever the toolkit prints must not end up in the result stream
     for line in sys.stdin:
         line = line.strip()
         if not line:
